@@ -18,10 +18,11 @@ func NewEnv() *Env {
 	return &Env{nil, map[string]*Val{}, map[string]interface{}{}, nil}
 }
 
+// Inherit returns an environment with e's bindings and the given parent.
+// e itself is left untouched, so it can be used for further invocations.
 func (e *Env) Inherit(parent *Env) *Env {
 	util.Assert(e.parent == nil, "env.parent != nil")
-	e.parent = parent
-	return e
+	return &Env{parent, e.ctx, e.fnTbl, e.Dgb}
 }
 
 func (e *Env) Derive() *Env {
